@@ -242,7 +242,98 @@ def action_property(m, rng, seed=None):
     return None
 
 
+def spec_argv(spec, f=10.0):
+    """the command line of a wire-graph spec (what `topo.build_impl` builds through the API)"""
+    argv = ['-f', repr(f)]
+    r = 0.001 * spec.get('size', 1.0)
+    for w in spec['wires']:
+        v = [str(w['nseg'])] + [repr(float(x)) for x in list(w['p0']) + list(w['p1'])] + [repr(r)]
+        if w['tag'] is not None:
+            v.insert(0, str(w['tag']))
+        argv += ['-w', ','.join(v)]
+    if spec['ground']:
+        argv.append('--medium=0,0,0')
+    return argv
+
+
+def cli_property(spec, seed):
+    """the same through the command line: several `--excitation-pulse` and `--attach-load` options of both forms, mixed
+    and in arbitrary order, each with its own voltage / load; every source and every attachment of the model `main`
+    builds sits on the pulse the geometry table of that model prints for the name the user gave"""
+    import random
+    from common import run_main
+    rng = random.Random(seed)
+    base = spec_argv(spec)
+    m0 = run_main(base + ['--excitation-pulse=1'], want_mininec=True)['m']
+    if m0 is None:
+        return None
+    blocks = geometry_blocks(m0)
+    rows = {b['tag']: [x - 1 for x in b['rows']] for b in blocks}
+    nonempty = [t for t in rows if rows[t]]
+    N = len(m0.pulses)
+    if N < 2 or not nonempty:
+        return None
+    argv = list(base)
+    # sources
+    ns = min(N, rng.choice([2, 2, 3, 4]))
+    targets = rng.sample(range(N), ns)
+    want_src, sdesc = [], []
+    for i, p in enumerate(targets):
+        v = complex(1 + i, 0.5 - i)
+        owners = [(t, rows[t].index(p)) for t in nonempty if p in rows[t]]
+        if owners and rng.random() < 0.55:
+            t, k = rng.choice(owners)
+            argv.append('--excitation-pulse=%d,%d' % (k + 1, t)); sdesc.append('%d,%d' % (k + 1, t))
+        else:
+            argv.append('--excitation-pulse=%d' % (p + 1)); sdesc.append('%d' % (p + 1))
+        argv.append('--excitation-voltage=%r' % v)
+        want_src.append((p, v))
+    # loads
+    want_ld = []
+    for li in range(rng.choice([0, 1, 2])):
+        z = complex(10 + 7 * li, 3 - li)
+        argv.append('--load=%r' % z)
+        named, ldesc = [], []
+        for _ in range(rng.choice([1, 2, 3])):
+            form = rng.choice(['abs', 'rel', 'allobj', 'all'])
+            if form == 'abs':
+                p = rng.randrange(N); named.append(p); a = '%d,%d' % (li + 1, p + 1)
+            elif form == 'rel':
+                t = rng.choice(nonempty); k = rng.randrange(len(rows[t])); named.append(rows[t][k]); a = '%d,%d,%d' % (li + 1, k + 1, t)
+            elif form == 'allobj':
+                t = rng.choice(nonempty); named += rows[t]; a = '%d,all,%d' % (li + 1, t)
+            else:
+                named += list(range(N)); a = '%d,all' % (li + 1)
+            argv.append('--attach-load=' + a); ldesc.append(a)
+        want_ld.append((z, sorted(named), ldesc))
+    r = run_main(argv, want_mininec=True)
+    m = r['m']
+    if m is None:
+        msg = (r['err'] or r['out'] or str(r['exc'])).strip().split('\n')[-1][:160]
+        return 'sources %r, attachments %r: the valid command line is refused (%s)' % (sdesc, [w[2] for w in want_ld], msg)
+    if [[x - 1 for x in b['rows']] for b in geometry_blocks(m)] != [[x - 1 for x in b['rows']] for b in blocks]:
+        return 'the geometry table depends on the sources / loads given'
+    got = [(s.idx, complex(s.voltage)) for s in m.sources]
+    if len(got) != len(want_src) or any(g[0] != w[0] or abs(g[1] - w[1]) > 1e-12 for g, w in zip(got, want_src)):
+        return ('sources named %r (table pulses %r): the model has sources on pulses %r'
+                % (sdesc, [p + 1 for p, _ in want_src], [g[0] + 1 for g in got]))
+    listed = [int(x) for x in re.findall(r'DEGREES\):\s*(\d+)', m.sources_as_mininec())]
+    if listed != [p + 1 for p, _ in want_src]:
+        return 'sources named %r: the source listing names pulses %r, the table %r' % (sdesc, listed, [p + 1 for p, _ in want_src])
+    for (z, named, ldesc), l in zip(want_ld, m.loads):
+        gp = sorted(p.idx for p in l.pulses)
+        if gp != named:
+            return 'load attached as %r: it sits on pulses %r, the table names %r' % (ldesc, [x + 1 for x in gp], [x + 1 for x in named])
+    if len(m.loads) != len(want_ld):
+        return '%d loads defined, the model has %d' % (len(want_ld), len(m.loads))
+    return None
+
+
 def replay(rp):
+    if rp.get('kind') == 'cli':
+        bad = cli_property(rp['spec'], rp['cli_seed'])
+        print('replay ->', bad or 'property holds')
+        return 1 if bad else 0
     if rp.get('kind') == 'action':
         m = topo.build_impl(rp['spec'])
         bad = action_property(m, None, seed=rp['action_seed'])
@@ -324,6 +415,13 @@ def run(ck):
                 bad = 'evaluation raised %s: %s' % (type(e).__name__, e)
             if bad:
                 ck.violation(dict(kind='action', spec=spec, action_seed=aseed, observed=bad))
+                return
+        if not why and i % 4 == 1 and 2 <= len(obs['pulses']) <= 40:
+            cseed = ck.rng.randrange(10 ** 9)
+            ck.count('cli_cases')
+            bad = cli_property(spec, cseed)
+            if bad:
+                ck.violation(dict(kind='cli', spec=spec, cli_seed=cseed, observed=bad))
                 return
     ck.stats['disagreements'] = len(dis)
     ck.stats['queries'] = nq
